@@ -6,6 +6,7 @@ use super::*;
 use crate::hll::array6::verif_kani_hll_array6 as v6;
 use crate::hll::array8::verif_kani_hll_array8 as v8;
 use crate::hll::estimator::verif_kani_hll_estimator as ve;
+use crate::hll::estimator::verif_kani_hll_estimator::rec_update;
 
 fn regs_of(s: &HllSketch, out: &mut [u8]) {
     let n = out.len();
@@ -21,6 +22,9 @@ fn regs_of(s: &HllSketch, out: &mut [u8]) {
     }
 }
 
+const LG: u8 = 2; // register files of 4 registers (the code is parametric in lg_k; 8 registers exhaust 14 GB)
+const NR: usize = 4;
+
 fn any_regs8() -> [u8; 8] {
     let r: [u8; 8] = kani::any();
     let mut i = 0;
@@ -31,89 +35,150 @@ fn any_regs8() -> [u8; 8] {
     r
 }
 
-/// Hll6 array sketch at lg_k = 3 with the given registers (estimator state arbitrary but plausible)
-fn sketch6(regs: &[u8; 8], ooo: bool) -> HllSketch {
-    let mut e = ve::raw_estimator(if ooo { 0.0 } else { 11.0 }, 8.0, 0.0, false);
-    e.set_out_of_order(ooo);
-    HllSketch::from_mode(3, Mode::Array6(v6::array6_from_regs(3, regs, e)))
+fn any_regs() -> [u8; NR] {
+    let r: [u8; NR] = kani::any();
+    let mut i = 0;
+    while i < NR {
+        kani::assume(r[i] <= 63);
+        i += 1;
+    }
+    r
 }
 
-fn sketch8(regs: &[u8; 8], ooo: bool) -> HllSketch {
+fn est(ooo: bool) -> crate::hll::estimator::HipEstimator {
     let mut e = ve::raw_estimator(if ooo { 0.0 } else { 11.0 }, 8.0, 0.0, false);
     e.set_out_of_order(ooo);
-    HllSketch::from_mode(3, Mode::Array8(v8::raw_array8(3, regs, e)))
+    e
 }
 
+fn sketch6(regs: &[u8], lg: u8, ooo: bool) -> HllSketch {
+    HllSketch::from_mode(lg, Mode::Array6(v6::array6_from_regs(lg, regs, est(ooo))))
+}
+
+fn sketch8(regs: &[u8], lg: u8, ooo: bool) -> HllSketch {
+    HllSketch::from_mode(lg, Mode::Array8(v8::raw_array8(lg, regs, est(ooo))))
+}
+
+fn new_union() -> HllUnion {
+    HllUnion { lg_max_k: 4, gadget: HllSketch::new(4, HllType::Hll8) }
+}
+
+fn single_input_case(hll6: bool) {
+    let r = any_regs();
+    let ooo: bool = kani::any();
+    let a = if hll6 { sketch6(&r, LG, ooo) } else { sketch8(&r, LG, ooo) };
+    kani::assume(!a.is_empty());
+    let mut u = new_union();
+    u.update(&a);
+    let mut g = [0u8; NR];
+    regs_of(&u.gadget, &mut g);
+    let mut i = 0;
+    while i < NR {
+        assert!(g[i] == r[i], "union of one sketch does not hold that sketch's registers");
+        i += 1;
+    }
+    assert!(u.lg_config_k() == LG, "union did not shrink to the input's lg_k");
+    assert!(!u.is_empty());
+    if let Mode::Array8(arr) = u.gadget.mode() {
+        if !arr.is_out_of_order() {
+            assert!(!ooo, "out-of-order input produced an in-order gadget (its HIP accumulator is 0: estimate 0)");
+            assert!(arr.hip_accum() == 11.0, "in-order gadget did not take over the input's HIP accumulator");
+        }
+    } else {
+        panic!("gadget must be an Hll8 array");
+    }
+    // idempotence
+    u.update(&a);
+    let mut g2 = [0u8; NR];
+    regs_of(&u.gadget, &mut g2);
+    let mut i = 0;
+    while i < NR {
+        assert!(g2[i] == r[i], "repeating an input changed the union");
+        i += 1;
+    }
+    kani::cover!(ooo);
+    kani::cover!(!ooo);
+    core::mem::forget((a, u));
+}
+
+macro_rules! union_single {
+    ($name:ident, $hll6:expr) => {
+        #[kani::proof]
+        #[kani::unwind(8)]
+        #[kani::stub(crate::hll::estimator::HipEstimator::update, rec_update)]
+        #[kani::stub(crate::hll::array8::Array8::rebuild_cached_values, v8::stub_rebuild_cached_values)]
+        fn $name() {
+            single_input_case($hll6);
+        }
+    };
+}
+
+//@ family: union_single
 //@ props: C03 C17
 //@ tier: quick
 //@ timeout: 1800
 //@ functions: hll::union::HllUnion::update
 //@ functions: hll::union::HllUnion::update_from_array
 //@ functions: hll::union::copy_or_downsample
+//@ functions: hll::union::copy_array46_via_coupons
+//@ functions: hll::union::merge_array_into_array8
 //@ functions: hll::union::merge_array_same_lgk
 //@ functions: hll::union::merge_array46_same_lgk
-//@ functions: hll::union::HllUnion::estimate
-//@ bounds: union with lg_max_k = 3..4 (constructed directly; public minimum is 4 - the code is parametric), two array-mode inputs at lg_k = 3 with all 8 registers symbolic: an Hll6 sketch and an Hll8 sketch, each in-order or out-of-order (symbolic flags); both input orders
-//@ desc: the gadget holds exactly the register-wise maximum of the inputs, whatever the order; a gadget built from an out-of-order input is itself out-of-order (never an in-order gadget with a zero HIP accumulator), so a union of non-empty inputs cannot report estimate 0 through the HIP path
+//@ unwind: 8
+//@ stubs: HipEstimator::update -> recorder, Array8::rebuild_cached_values -> integer-only stand-in (the float sums are c03_array8_rebuild_cached_values / c02_estimator_update_tracks_registers)
+//@ bounds: union (lg_max_k 4) fed one array-mode sketch of 4 registers (lg_k 2; the public minimum 4 only changes the sizes) with all registers 0..=63 and the out-of-order flag symbolic; Hll6 resp. Hll8 input per instance; the same input fed twice
+//@ replay_stub: hll/estimator.rs | pub fn update(&mut self, lg_config_k: u8, old_value: u8, new_value: u8) { | return self::verif_kani_hll_estimator::rec_update(self, lg_config_k, old_value, new_value);
+//@ desc: the gadget holds exactly the input's registers at the input's lg_k; a gadget built from an out-of-order input is itself out-of-order (never an in-order gadget with HIP accumulator 0, i.e. estimate 0 for a non-empty input); an in-order gadget carries the input's HIP accumulator; feeding the input again changes nothing
+union_single!(c03_union_single_hll6, true);
+union_single!(c03_union_single_hll8, false);
+//@ endfamily: x
+
+//@ props: C03 C17
+//@ tier: quick
+//@ timeout: 1800
+//@ functions: hll::union::HllUnion::update
+//@ functions: hll::union::merge_array_same_lgk
+//@ functions: hll::union::merge_array46_same_lgk
+//@ functions: hll::array8::Array8::merge_array_same_lgk
+//@ stubs: HipEstimator::update -> recorder, Array8::rebuild_cached_values -> integer-only stand-in
+//@ bounds: two array-mode inputs of 4 registers (an Hll6 and an Hll8 sketch) with all registers and both out-of-order flags symbolic, fed in both orders
+//@ replay_stub: hll/estimator.rs | pub fn update(&mut self, lg_config_k: u8, old_value: u8, new_value: u8) { | return self::verif_kani_hll_estimator::rec_update(self, lg_config_k, old_value, new_value);
+//@ desc: the union of two sketches is the register-wise maximum, independent of the input order, and is marked out-of-order (a merge has no valid HIP accumulator)
 #[kani::proof]
-#[kani::unwind(12)]
-fn c03_union_two_arrays_model() {
-    let ra = any_regs8();
-    let rb = any_regs8();
-    let ooo_a: bool = kani::any();
-    let ooo_b: bool = kani::any();
-    let a = sketch6(&ra, ooo_a);
-    let b = sketch8(&rb, ooo_b);
+#[kani::unwind(8)]
+#[kani::stub(crate::hll::estimator::HipEstimator::update, rec_update)]
+#[kani::stub(crate::hll::array8::Array8::rebuild_cached_values, v8::stub_rebuild_cached_values)]
+fn c03_union_pair_order_independent() {
+    let ra = any_regs();
+    let rb = any_regs();
+    let a = sketch6(&ra, LG, kani::any());
+    let b = sketch8(&rb, LG, kani::any());
     kani::assume(!a.is_empty() && !b.is_empty());
-    let mut u1 = HllUnion { lg_max_k: 4, gadget: HllSketch::new(4, HllType::Hll8) };
+    let mut u1 = new_union();
     u1.update(&a);
-    // after the first (single) input: same registers, and HIP validity
-    let mut g = [0u8; 8];
-    regs_of(&u1.gadget, &mut g);
-    let mut i = 0;
-    while i < 8 {
-        assert!(g[i] == ra[i], "union of one sketch does not hold that sketch's registers");
-        i += 1;
-    }
-    assert!(u1.lg_config_k() == 3, "union did not shrink to the input's lg_k");
-    if let Mode::Array8(arr) = u1.gadget.mode() {
-        if !arr.is_out_of_order() {
-            assert!(!ooo_a, "out-of-order input produced an in-order gadget");
-            assert!(arr.hip_accum() > 0.0, "in-order gadget of a non-empty input has HIP accumulator 0 (estimate would be 0)");
-        }
-    } else {
-        panic!("gadget must be an Hll8 array");
-    }
     u1.update(&b);
-    let mut u2 = HllUnion { lg_max_k: 4, gadget: HllSketch::new(4, HllType::Hll8) };
+    let mut u2 = new_union();
     u2.update(&b);
     u2.update(&a);
-    let mut g1 = [0u8; 8];
-    let mut g2 = [0u8; 8];
+    let mut g1 = [0u8; NR];
+    let mut g2 = [0u8; NR];
     regs_of(&u1.gadget, &mut g1);
     regs_of(&u2.gadget, &mut g2);
     let mut i = 0;
-    while i < 8 {
+    while i < NR {
         let m = if ra[i] > rb[i] { ra[i] } else { rb[i] };
         assert!(g1[i] == m, "union is not the register-wise maximum");
         assert!(g2[i] == m, "union depends on the input order");
         i += 1;
     }
-    // a merge of two arrays has no valid HIP accumulator
     if let (Mode::Array8(x), Mode::Array8(y)) = (u1.gadget.mode(), u2.gadget.mode()) {
         assert!(x.is_out_of_order() && y.is_out_of_order(), "merged gadget not marked out-of-order");
-        assert!(x.estimator() == y.estimator(), "estimator state depends on the input order");
+        assert!(x.hip_accum() == y.hip_accum(), "HIP state depends on the input order");
+    } else {
+        panic!("gadget must be an Hll8 array");
     }
-    // idempotence
-    u1.update(&a);
-    regs_of(&u1.gadget, &mut g2);
-    let mut i = 0;
-    while i < 8 {
-        assert!(g2[i] == g1[i], "repeating an input changed the union");
-        i += 1;
-    }
-    kani::cover!(ooo_a && !ooo_b);
-    kani::cover!(!ooo_a && !ooo_b);
+    assert!(u1.lg_config_k() == LG && u2.lg_config_k() == LG);
+    kani::cover!(true);
     core::mem::forget((a, b, u1, u2));
 }
 
@@ -122,14 +187,17 @@ fn c03_union_two_arrays_model() {
 //@ timeout: 1800
 //@ functions: hll::union::HllUnion::to_sketch
 //@ functions: hll::union::convert_array8_to_type
-//@ bounds: gadget = Hll8 array at lg_k = 3 with all registers symbolic (<= 14 so that the Hll4 copy needs no exception), estimator state symbolic (HIP accumulator, in-order or out-of-order)
-//@ desc: to_sketch(Hll4 / Hll6 / Hll8) return the same registers, the same out-of-order flag and the same estimator state (HIP accumulator, kxq0, kxq1) - hence the same estimate and bounds whatever the requested type
+//@ stubs: HipEstimator::update -> recorder
+//@ bounds: gadget = Hll8 array of 4 registers, all symbolic (<= 14 so that the Hll4 copy needs no exception), estimator state symbolic (HIP accumulator, in-order or out-of-order)
+//@ replay_stub: hll/estimator.rs | pub fn update(&mut self, lg_config_k: u8, old_value: u8, new_value: u8) { | return self::verif_kani_hll_estimator::rec_update(self, lg_config_k, old_value, new_value);
+//@ desc: to_sketch(Hll4 / Hll6 / Hll8) return the same registers, the same out-of-order flag and the same HIP accumulator - hence the same estimate and bounds whatever the requested type
 #[kani::proof]
-#[kani::unwind(12)]
+#[kani::unwind(8)]
+#[kani::stub(crate::hll::estimator::HipEstimator::update, rec_update)]
 fn c03_to_sketch_type_independent() {
-    let r = any_regs8();
+    let r = any_regs();
     let mut i = 0;
-    while i < 8 {
+    while i < NR {
         kani::assume(r[i] <= 14);
         i += 1;
     }
@@ -138,19 +206,19 @@ fn c03_to_sketch_type_independent() {
     kani::assume(hip >= 0.0 && hip <= 1.0e6);
     let mut e = ve::raw_estimator(hip, 5.5, 0.25, false);
     e.set_out_of_order(ooo);
-    let u = HllUnion { lg_max_k: 4, gadget: HllSketch::from_mode(3, Mode::Array8(v8::raw_array8(3, &r, e.clone()))) };
+    let u = HllUnion { lg_max_k: 4, gadget: HllSketch::from_mode(LG, Mode::Array8(v8::raw_array8(LG, &r, e.clone()))) };
     let s8 = u.to_sketch(HllType::Hll8);
     let s6 = u.to_sketch(HllType::Hll6);
     let s4 = u.to_sketch(HllType::Hll4);
     assert!(s8.target_type() == HllType::Hll8 && s6.target_type() == HllType::Hll6 && s4.target_type() == HllType::Hll4);
-    let mut g8 = [0u8; 8];
-    let mut g6 = [0u8; 8];
-    let mut g4 = [0u8; 8];
+    let mut g8 = [0u8; NR];
+    let mut g6 = [0u8; NR];
+    let mut g4 = [0u8; NR];
     regs_of(&s8, &mut g8);
     regs_of(&s6, &mut g6);
     regs_of(&s4, &mut g4);
     let mut i = 0;
-    while i < 8 {
+    while i < NR {
         assert!(g8[i] == r[i] && g6[i] == r[i] && g4[i] == r[i], "to_sketch changed a register");
         i += 1;
     }
@@ -188,7 +256,7 @@ fn c03_union_reset_restores_initial_state() {
     let downsized: bool = kani::any();
     let mut u = HllUnion {
         lg_max_k,
-        gadget: if downsized { sketch8(&r, true) } else { HllSketch::new(lg_max_k, HllType::Hll8) },
+        gadget: if downsized { sketch8(&r, 3, true) } else { HllSketch::new(lg_max_k, HllType::Hll8) },
     };
     u.reset();
     assert!(u.is_empty(), "reset union is not empty");
